@@ -58,7 +58,7 @@ def main():
         demo = os.path.join(wt, '_out', 'm', 'demo.py')
         # the demos were written for their own worktree path: rewrite it
         src = open(demo).read()
-        src = re.sub(r'/tmp/wt[23456]?_C\d+', wt, src)
+        src = re.sub(r'/tmp/wt[234567]?_C\d+', wt, src)
         open(demo, 'w').write(src)
         rc, out = sh([PY, demo], cwd=wt, env=env, timeout=900)
         res['demo_clean_rc'] = rc
